@@ -55,6 +55,24 @@ structure Sub where
 
 def Sub.notYetInit : Sub := ⟨0, 0, 0, none, .none 0 0, false⟩
 
+/-- `current_interlace_info = interlace_info_iter.next()` (mod.rs:595, 694) -/
+def Sub.advance (s : Sub) : Sub :=
+  match s.iter.next with
+  | some (c, it) => { s with cur := some c, iter := it }
+  | none => { s with cur := none }
+
+/-- the size of the (sub)frame: the `fcTL` overrides the IHDR size (mod.rs:687-691) -/
+def Sub.dims (i : Info) : Nat × Nat :=
+  match i.fctl with
+  | some fc => (fc.width, fc.height)
+  | none => (i.width, i.height)
+
+/-- `SubframeInfo::new` (mod.rs:684-703) -/
+def Sub.new (i : Info) : Sub :=
+  Sub.advance { width := (Sub.dims i).1, height := (Sub.dims i).2,
+                rowlen := rawRowLengthFromWidth i.color i.depth (Sub.dims i).1, cur := none,
+                iter := IIter.new (Sub.dims i).1 (Sub.dims i).2 i.interlaced, caf := false }
+
 structure Flags where
   expand : Bool := false
   strip16 : Bool := false
@@ -224,15 +242,11 @@ def readUntilImageData (cfg : Cfg) (t : TCfg) (r : R) : R × Except Res Unit :=
     match infoOf r' with
     | none => (r', .error (.panic "info().unwrap()"))
     | some i =>
-      let (w, h) := match i.fctl with | some fc => (fc.width, fc.height) | none => (i.width, i.height)
-      let iter0 := IIter.new w h i.interlaced
-      let (cur, iter) := match iter0.next with | some (c, it) => (some c, it) | none => (none, iter0)
-      let sub : Sub := { width := w, height := h, rowlen := rawRowLengthFromWidth i.color i.depth w, cur := cur, iter := iter, caf := false }
       match bppFromUsize (bytesPerPixel i.color i.depth) with
       | none => (r', .error (.panic "unreachable!(bpp) (common.rs:846)"))
       | some bpp =>
-        let r2 := { r' with sub := sub, bpp := bpp, ub := UB.new }
-        match reserveBytes r2 (outLineSize t i r2.flags w) with
+        let r2 := { r' with sub := Sub.new i, bpp := bpp, ub := UB.new }
+        match reserveBytes r2 (outLineSize t i r2.flags (Sub.new i).width) with
         | .error e => (r2, .error e)
         | .ok r3 => (r3, .ok ())
 
@@ -304,6 +318,16 @@ def nextRawRow (cfg : Cfg) (rowlen : Nat) : Nat → R → R × Except Res Unit
       | .unknownFilter _ => (r, .error (.err .format "UnknownFilterMethod"))
       | .panic => (r, .error (.panic "unfilter_curr_row (unfiltering_buffer.rs:86-111)"))
 
+/-- the cached `transform_fn`, created from the current `Info` on first use (mod.rs:587-592): the reader
+    afterwards and the `Info` the function was created from -/
+def getTransform (t : TCfg) (r : R) (i : Info) : Except Res (R × Info) :=
+  match r.cached with
+  | some snap => .ok (r, snap)
+  | none =>
+    match t.create i r.flags with
+    | .error w => if w.startsWith "panic" then .error (.panic w) else .error (.err .format w)
+    | .ok () => .ok ({ r with cached := some i }, i)
+
 /-- `next_interlaced_row_impl` (mod.rs:568-591): returns the transformed row -/
 def nextRowImpl (cfg : Cfg) (t : TCfg) (r : R) (rowlen outLen : Nat) : R × Except Res Bytes :=
   match nextRawRow cfg rowlen (fuelOf r) r with
@@ -314,21 +338,12 @@ def nextRowImpl (cfg : Cfg) (t : TCfg) (r : R) (rowlen outLen : Nat) : R × Exce
     match infoOf r' with
     | none => (r', .error (.panic "info().unwrap()"))
     | some i =>
-      let created : Except Res (R × Info) :=
-        match r'.cached with
-        | some snap => .ok (r', snap)
-        | none =>
-          match t.create i r'.flags with
-          | .error w => if w.startsWith "panic" then .error (.panic w) else .error (.err .format w)
-          | .ok () => .ok ({ r' with cached := some i }, i)
-      match created with
+      match getTransform t r' i with
       | .error e => (r', .error e)
       | .ok (r2, snap) =>
         match t.apply snap r2.flags i row outLen with
         | none => (r2, .error (.panic "transform_fn (transform.rs / palette.rs)"))
-        | some out =>
-          let (cur, iter) := match r2.sub.iter.next with | some (c, it) => (some c, it) | none => (none, r2.sub.iter)
-          ({ r2 with sub := { r2.sub with cur := cur, iter := iter } }, .ok out)
+        | some out => ({ r2 with sub := r2.sub.advance }, .ok out)
 
 def lineSizeFor (t : TCfg) (r : R) (i : Info) (ii : IInfo) : Nat :=
   match ii with
@@ -390,36 +405,40 @@ def frameInterlaced (cfg : Cfg) (t : TCfg) (stride bitsPP : Nat) : Nat → R →
     | (r', .row (.null _) _) => (r', buf, some (.panic "get_adam7_info().unwrap() (mod.rs:424)"))
     | (r', e) => (r', buf, some e)
 
+/-- the row loop of `next_frame` (mod.rs:424-451) -/
+def frameBody (cfg : Cfg) (t : TCfg) (r1 : R) (interlaced : Bool) (lineSize bitsPP : Nat) (buf : Bytes) : R × Bytes × Option Res :=
+  if interlaced then
+    frameInterlaced cfg t lineSize bitsPP (7 * r1.sub.height + 8) r1 buf
+  else
+    let done := match r1.sub.cur with | some ii => ii.line | none => r1.sub.height
+    if lineSize = 0 then (r1, buf, some (.panic "chunks_exact_mut(0) (mod.rs:436)")) else
+    frameRows cfg t lineSize (r1.sub.height - done) done r1 buf
+
+/-- `next_frame` once the reader stands in the frame's image data (mod.rs:405-456): the buffer size check,
+    the row loop, `finish_decoding` -/
+def frameInto (cfg : Cfg) (t : TCfg) (r1 : R) (buf : Bytes) : R × Res × Bytes :=
+  match infoOf r1 with
+  | none => (r1, .panic "info().unwrap()", buf)
+  | some i =>
+    let need := outLineSize t i r1.flags i.width * i.height
+    if buf.length < need then (r1, .err .parameter "ImageBufferSize", buf) else
+    let cd := t.outColorDepth i r1.flags
+    let oi : OutputInfo := { width := r1.sub.width, height := r1.sub.height, color := cd.1, depth := cd.2, lineSize := outLineSize t i r1.flags r1.sub.width }
+    match frameBody cfg t r1 i.interlaced oi.lineSize (samplesOf cd.1 * cd.2) buf with
+    | (r2, buf', some e) => (r2, e, buf')
+    | (r2, buf', none) =>
+      match finishDecoding cfg r2 with
+      | (r3, .error e) => (r3, e, buf')
+      | (r3, .ok ()) => (r3, .frame oi buf', buf')
+
 /-- `next_frame` (mod.rs:384-449) into a caller buffer with contents `buf`; also returns the buffer afterwards
     (partially written when the call fails) -/
 def nextFrameBuf (cfg : Cfg) (t : TCfg) (r : R) (buf : Bytes) : R × Res × Bytes :=
-  let fail (r : R) (e : Res) : R × Res × Bytes := (r, e, buf)
-  if r.remaining = 0 then fail r (.err .parameter "PolledAfterEndOfImage") else
+  if r.remaining = 0 then (r, .err .parameter "PolledAfterEndOfImage", buf) else
   let adv : R × Except Res Unit := if r.sub.caf then readUntilImageData cfg t r else (r, .ok ())
   match adv with
-  | (r1, .error e) => fail r1 e
-  | (r1, .ok ()) =>
-    match infoOf r1 with
-    | none => fail r1 (.panic "info().unwrap()")
-    | some i =>
-      let need := outLineSize t i r1.flags i.width * i.height
-      if buf.length < need then fail r1 (.err .parameter "ImageBufferSize") else
-      let (c, d) := t.outColorDepth i r1.flags
-      let oi : OutputInfo := { width := r1.sub.width, height := r1.sub.height, color := c, depth := d, lineSize := outLineSize t i r1.flags r1.sub.width }
-      let body : R × Bytes × Option Res :=
-        if i.interlaced then
-          let stride := oi.lineSize
-          frameInterlaced cfg t stride (samplesOf c * d) (7 * r1.sub.height + 8) r1 buf
-        else
-          let done := match r1.sub.cur with | some ii => ii.line | none => r1.sub.height
-          if oi.lineSize = 0 then (r1, buf, some (.panic "chunks_exact_mut(0) (mod.rs:436)")) else
-          frameRows cfg t oi.lineSize (r1.sub.height - done) done r1 buf
-      match body with
-      | (r2, buf', some e) => (r2, e, buf')
-      | (r2, buf', none) =>
-        match finishDecoding cfg r2 with
-        | (r3, .error e) => (r3, e, buf')
-        | (r3, .ok ()) => (r3, .frame oi buf', buf')
+  | (r1, .error e) => (r1, e, buf)
+  | (r1, .ok ()) => frameInto cfg t r1 buf
 
 def nextFrame (cfg : Cfg) (t : TCfg) (r : R) (buf : Bytes) : R × Res :=
   let (r', res, _) := nextFrameBuf cfg t r buf
@@ -455,6 +474,24 @@ def finish (cfg : Cfg) (r : R) : R × Res :=
   | (r', .error e) => (r', e)
   | (r', .ok ()) => ({ r' with finished := true }, .done)
 
+/-- the buffer a `next_frame` call of the model gets: `size` bytes `p`, or — when the previous call was a
+    `next_frame` that ran out of input — the buffer of that call again -/
+def callerBuf (r : R) (size : Nat) (p : UInt8) : Bytes :=
+  match r.pendingBuf with
+  | some b => if b.length = size then b else List.replicate size p
+  | none => List.replicate size p
+
+/-- `next_frame` as an operation of the model: the documented buffer size (`output_buffer_size()`) is queried
+    before the call; a call that ran out of input leaves its buffer for the retry -/
+def nextFrameOp (cfg : Cfg) (t : TCfg) (r : R) (p : UInt8) : R × Res :=
+  match infoOf r with
+  | none => (r, .panic "info().unwrap()")
+  | some i =>
+    let out := nextFrameBuf cfg t { r with pendingBuf := none } (callerBuf r (outLineSize t i r.flags i.width * i.height) p)
+    match out.2.1 with
+    | .err .eof _ => ({ out.1 with pendingBuf := some out.2.2 }, out.2.1)
+    | _ => (out.1, out.2.1)
+
 inductive Op
   | readHeader
   | readInfo
@@ -479,19 +516,7 @@ def step (cfg : Cfg) (t : TCfg) (r : R) : Op → R × Res
   | op =>
     if !r.isReader then (r, .err .parameter "model: no Reader yet") else
     match op with
-    | .nextFrame p =>
-      match infoOf r with
-      | none => (r, .panic "info().unwrap()")
-      | some i =>
-        -- the documented buffer size is queried before the call; a call retried after end-of-input gets the same buffer
-        let size := outLineSize t i r.flags i.width * i.height
-        let buf := match r.pendingBuf with
-          | some b => if b.length = size then b else List.replicate size p
-          | none => List.replicate size p
-        let (r', res, buf') := nextFrameBuf cfg t { r with pendingBuf := none } buf
-        match res with
-        | .err .eof _ => ({ r' with pendingBuf := some buf' }, res)
-        | _ => (r', res)
+    | .nextFrame p => nextFrameOp cfg t r p
     | .nextRow => nextInterlacedRow cfg t { r with pendingBuf := none }
     | .readRow =>
       match infoOf r with
